@@ -23,6 +23,7 @@ type Mem struct {
 	Reads     int
 	Bytes     int64
 	MaxReads  int // 0 = unlimited
+	MaxBytes  int64
 	BudgetHit bool
 	// faults
 	FailAt     int  // k-th read of the operation fails (1-based); 0 = none
@@ -70,7 +71,7 @@ func (m *Mem) Page(n int, pagesize int) ([]byte, error) {
 	if !m.Locked {
 		m.ReadOutsideLock++
 	}
-	if m.MaxReads > 0 && m.Reads > m.MaxReads {
+	if (m.MaxReads > 0 && m.Reads > m.MaxReads) || (m.MaxBytes > 0 && m.Bytes > m.MaxBytes) {
 		m.BudgetHit = true
 		return nil, ErrBudget
 	}
